@@ -328,6 +328,15 @@ def law_text(law):
     y = p_expr(law["y"])
     if kind == "eq2":      # both directions of isEqualTo, hashing consistency through a one-entry hashmap
         return "[(%s) isEqualTo (%s), (%s) isEqualTo (%s), (createHashMapFromArray [[%s, 1]]) get (%s), (%s) in (createHashMapFromArray [[%s, 1]]), count (createHashMapFromArray [[%s, 1], [%s, 2]])]" % (x, y, y, x, x, y, y, x, x, y)
+    if kind == "mut":      # hashing stays consistent with equality after the hashed value was mutated in place
+        wrap = {"none": "%s", "arr": "[%s]", "arr2": "[1, [%s]]"}[law["wrap"]]
+        m = law["mut"]
+        mut = "_h set [%s, %s]" % (p_expr(m[1]), p_expr(m[2])) if m[0] == "set" else "_h deleteAt %s" % p_expr(m[1])
+        two = "[[0, 0], [_g, 1]]"
+        return ("call { private _h = %s; private _w = %s; private _m = createHashMapFromArray [[0, 0], [_w, 1]]; private _pre = _m get _w; %s; "
+                "private _g = %s; [_pre, _w isEqualTo _g, _g isEqualTo _w, (createHashMapFromArray %s) get _w, _w in (createHashMapFromArray %s), "
+                "count (createHashMapFromArray [[_g, 1], [_w, 2]]), (%s) in _m, _w in _m] }"
+                % (x, wrap % "_h", mut, wrap % y, two, two, wrap % x))
     if kind == "opeq":     # == on the types it is defined for
         return "[(%s) == (%s), (%s) == (%s), (%s) isEqualTo (%s)]" % (x, y, y, x, x, y)
     raise ValueError(kind)
@@ -895,6 +904,29 @@ def gen_laws(rng):
             laws.append({"kind": "eq2", "x": x, "y": y, "i": i, "j": j})
             if x[0] == y[0] and x[0] in ("n", "s", "b"):
                 laws.append({"kind": "opeq", "x": x, "y": y, "i": i, "j": j})
+    # a hashmap that was hashed once (as a key, directly or inside an array key), then mutated in place, must hash like a
+    # separately built hashmap of the new content (x = content before, y = content after, built in another entry order)
+    kpool = [["s", "a"], ["s", "b"], ["n", 1], ["arr", [["n", 1]]]]
+    vpool = [["n", 1], ["n", 2], ["s", "x"], ["arr", [["n", 1]]], ["b", True]]
+    for _ in range(rng.randint(1, 3)):
+        ks = rng.sample(kpool, rng.randint(1, 3))
+        ents = [[k, rng.choice(vpool)] for k in ks]
+        r = rng.random()
+        if r < 0.6:
+            k = rng.choice(ks)
+            cur = [e[1] for e in ents if e[0] == k][0]
+            mut = ["set", k, rng.choice([v for v in vpool if v != cur])]
+            after = [[e[0], mut[2] if e[0] == k else e[1]] for e in ents]
+        elif r < 0.8:
+            rest = [k for k in kpool if k not in ks]
+            mut = ["set", rest[0], rng.choice(vpool)]
+            after = ents + [[mut[1], mut[2]]]
+        else:
+            k = rng.choice(ks)
+            mut = ["del", k]
+            after = [e for e in ents if e[0] != k]
+        laws.append({"kind": "mut", "x": ["hm", ents], "y": ["hm", list(reversed(after))], "wrap": rng.choice(["none", "none", "arr", "arr2"]), "mut": mut,
+                     "i": -1, "j": -1})
     return laws
 
 
@@ -1290,6 +1322,24 @@ def judge_laws(case, ev):
                     V.append(Violation("laws", "law:unequal-but-same-key:%s" % cls, "%s compare unequal, yet a hashmap treats them as one key: get = %r, in = %r, count = %r" % (desc, hget, hin, hcount)))
             eqm[(law["i"], law["j"])] = xy
             eqm[(law["j"], law["i"])] = yx
+        elif law["kind"] == "mut":
+            cls = "%s:%s" % (law["mut"][0], law["wrap"])
+            desc = "h = %s hashed as key (%s), then h %s, compared with a separately built %s" % (p_expr(x), law["wrap"], " ".join([law["mut"][0]] + [p_expr(z) for z in law["mut"][1:]]), p_expr(y))
+            if not isinstance(r, list) or len(r) != 8:
+                V.append(Violation("laws", "law:malformed:mut:%s" % cls, "%s gave %r" % (desc, r)))
+                continue
+            pre, wg, gw, hget, hin, hcount, old_in, new_in = r
+            same = equal(ev_expr(heap, {}, x), ev_expr(heap, {}, y))
+            if pre != 1:
+                V.append(Violation("laws", "law:mut:lookup-before:%s" % cls, "%s: the key was not found right after insertion (%r)" % (desc, pre)))
+            if wg is not True or gw is not True:
+                V.append(Violation("laws", "law:mut:not-equal-after:%s" % cls, "%s: isEqualTo = %r / %r" % (desc, wg, gw)))
+            elif hget != 1 or hin is not True or hcount != 1:
+                V.append(Violation("laws", "law:mut:equal-but-hash-differs:%s" % cls, "%s compare equal, yet a hashmap holding the fresh one answers get = %r, in = %r, count of both = %r" % (desc, hget, hin, hcount)))
+            if old_in is not True:
+                V.append(Violation("laws", "law:mut:key-not-captured:%s" % cls, "%s: the content at insertion is no longer a key of the outer map" % desc))
+            if new_in is not same:
+                V.append(Violation("laws", "law:mut:key-followed-mutation:%s" % cls, "%s: mutated value in outer map = %r, expected %r" % (desc, new_in, same)))
         else:
             if not isinstance(r, list) or len(r) != 3:
                 continue
@@ -1308,6 +1358,8 @@ def judge_laws(case, ev):
     n = max([l["j"] for l in laws] + [0]) + 1
     vals = {}
     for l in laws:
+        if l["kind"] == "mut":
+            continue
         vals[l["i"]] = l["x"]
         vals[l["j"]] = l["y"]
     for a in range(n):
